@@ -1279,7 +1279,7 @@ Proof.
   destruct (find_call_some _ _ _ Ef) as [Hin Hthr].
   destruct (gi_calls s (proj1 HI)) as [Hnd Hal]. destruct (Hal a Hin) as (k & Hg & Ha & Hnc & Hnd'). rewrite Hg.
   assert (Edt : is_dtor (a_api a) = false) by (destruct (a_api a); try reflexivity; congruence). rewrite Edt.
-  destruct (true && a_loaded a && negb (api_test (a_api a) k)) eqn:Eg; [exact I|].
+  destruct (true && a_loaded a && cstate_eqb (k_st k) Disconnected) eqn:Eg; [exact I|].
   cbn [andb] in Eg.
   set (a' := mkCall u (a_conn a) (a_api a) (a_loaded a) true).
   destruct (calls_replace s u a a' (proj1 HI) Ef eq_refl eq_refl eq_refl) as (C1 & C2 & C3).
@@ -1287,11 +1287,9 @@ Proof.
   pose proof (held_set_calls s _ HH (fun c => Nat.eq_le_incl _ _ (eq_sym (C3 c)))) as HH1.
   cbn [ret]. fold a'. destruct (a_loaded a) eqn:El; [|split; assumption].
   destruct (api_stores (a_api a)) eqn:Es; [|split; assumption]. cbn [andb].
-  cbn [andb] in Eg. apply negb_false_iff in Eg.
-  (* the test still holds: the connection is up *)
-  assert (Hup : up_k k).
-  { unfold api_test in Eg. destruct (a_api a); try discriminate Es;
-      try (apply cs_eqb_true in Eg; left; exact Eg); apply closable_up_k, Eg. }
+  cbn [andb] in Eg. apply cs_eqb_false in Eg.
+  (* the store does not overwrite kDisconnected (nor kConnecting: calls are made on established connections): the connection is up *)
+  assert (Hup : up_k k) by (unfold up_k; destruct (k_st k); intuition congruence).
   set (s1 := set_calls s (drop_call u (s_calls s) ++ [a'])).
   assert (Hg1 : getc s1 (a_conn a) = Some k) by exact Hg.
   pose proof (proj2 HI1 (a_conn a) k Hg1) as HCk.
